@@ -809,6 +809,7 @@ RULES = [
     ("C04-R8", "the byte count of Read::read bounds the data examined", lambda ctx: __import__("extra2").read_amount_used(ctx)),
     ("X-CONFIG", "a setting read from both configurations is the user's value when present, the built-in default otherwise [shared]", lambda ctx: __import__("extra2").user_config_wins(ctx)),
     ("C13-R3", "time columns: accessor, conversion to local time, output format [shared with C13]", lambda ctx: __import__("c13").r3(ctx)),
+    ("X-MEMOKEY", "a memo kept in self is keyed by every parameter its stored value is computed from [shared]", lambda ctx: __import__("extra2").memo_key_complete(ctx)),
 ]
 
 EXPLANATION = (
